@@ -477,6 +477,14 @@ def gen_fea(rng, facts, want=None, collide=None, ext_split=False, mfs=False):
                 lines.append("LigatureCaretByIndex f_f 1;")
         gdef = _block("table", "GDEF", lines)
         final.insert(rng.randint(0, len(final)), gdef)
+    # 7. other hand-written table blocks, before and / or after the GDEF block
+    if rng.random() < 0.3:
+        others = [_block("table", "hhea", ["CaretOffset %d;" % rng.choice([0, 5, -3])]),
+                  _block("table", "OS/2", ["Panose 2 11 6 3 3 8 4 2 2 4;"]),
+                  _block("table", "head", ["FontRevision 1.%d;" % rng.choice([1, 25])])]
+        rng.shuffle(others)
+        for blk in others[:rng.randint(1, 2)]:
+            final.insert(rng.randint(0, len(final)), blk)
     out += final
     if rng.random() < 0.15:
         out.append(_comment(rng))
